@@ -38,19 +38,33 @@ func pickTTL(r *vc.Rand) string {
 	return vc.Pick(r, memTTLs)
 }
 
-// memCall returns one random call on key k.
-func memCall(r *vc.Rand, k string) string {
-	a, f := pickAtom(r), vc.Pick(r, fields)
-	switch r.Intn(22) {
+func oddTTL(r *vc.Rand) string { return vc.Pick(r, oddTTLs) }
+
+// memCall returns one random call on key k; wrote reports a lifetime-carrying write.
+func memCall(r *vc.Rand, g *genState, k string) (call string, wrote bool) {
+	a, f := g.atom(r, pickAtom), vc.Pick(r, fields)
+	ttl := g.ttl(r, k, []string{"0", strconv.Itoa(shortNS), strconv.Itoa(longNS)}, oddTTL)
+	c := memCall1(r, g, k, a, f, ttl)
+	switch strings.Fields(c)[0] {
+	case "set", "nx", "cas", "exp", "setl":
+		return c, true
+	}
+	return c, false
+}
+
+func memCall1(r *vc.Rand, g *genState, k, a, f, ttl string) string {
+	switch r.Intn(24) {
 	case 0, 1:
-		return fmt.Sprintf("set %s %s %s", k, a, pickTTL(r))
+		g.wrote(k, a, ttl)
+		return fmt.Sprintf("set %s %s %s", k, a, ttl)
 	case 2:
 		n := r.Intn(4)
 		as := make([]string, n)
 		for i := range as {
 			as[i] = pickAtom(r)
 		}
-		return strings.TrimSpace(fmt.Sprintf("setl %s %d %s", k, n, strings.Join(as, " "))) + " " + pickTTL(r)
+		g.wrote(k, "", ttl)
+		return strings.TrimSpace(fmt.Sprintf("setl %s %d %s", k, n, strings.Join(as, " "))) + " " + ttl
 	case 3, 4:
 		return "get " + k
 	case 5:
@@ -58,15 +72,19 @@ func memCall(r *vc.Rand, k string) string {
 	case 6:
 		return "ex " + k
 	case 7:
-		return fmt.Sprintf("nx %s %s %s", k, a, pickTTL(r))
-	case 8, 9:
-		old := pickAtom(r)
-		if r.Intn(4) == 0 {
-			old = "nil"
+		if g.lastVal[k] == "" {
+			g.wrote(k, a, ttl)
 		}
-		return fmt.Sprintf("cas %s %s %s %s", k, old, a, pickTTL(r))
+		return fmt.Sprintf("nx %s %s %s", k, a, ttl)
+	case 8, 9, 22, 23:
+		old, nw := g.casArgs(r, k, pickAtom)
+		if old == g.lastVal[k] || old == "nil" {
+			g.wrote(k, nw, ttl)
+		}
+		return fmt.Sprintf("cas %s %s %s %s", k, old, nw, ttl)
 	case 10:
-		return fmt.Sprintf("exp %s %s", k, pickTTL(r))
+		g.lastTTL[k] = ttl
+		return fmt.Sprintf("exp %s %s", k, ttl)
 	case 11:
 		return "ttl " + k
 	case 12:
@@ -125,28 +143,25 @@ func setups(k string) []string {
 	return out
 }
 
-const probes = " get a ttl a ex a getl a hall a"
-
 func genMem(r *vc.Rand, thorough bool) []string {
 	var out []string
 	sl := " sl " + strconv.Itoa(sleepNS)
-	// exhaustive matrix: setup × (no sleep | sleep) × every call kind, then probes
-	for _, su := range setups("a") {
-		for _, slp := range []string{"", sl} {
-			if su == "" && slp != "" {
-				continue
-			}
-			for _, c := range allCalls("a") {
-				out = append(out, strings.Join(strings.Fields("mem "+su+slp+" "+c+probes), " "))
-			}
-		}
+	ttls := []string{"0", strconv.Itoa(shortNS), strconv.Itoa(longNS)}
+	// exhaustive small scope: (op1, [sleep], op2, probe) with all ttl combinations, every call kind
+	out = append(out, triples("mem", "a", ttls, sleepNS, false)...)
+	// storage_based_lock.go call shapes on the memory backend
+	nlock := 60
+	if thorough {
+		nlock = 1500
 	}
+	out = append(out, lockScenarios(r, "mem", ttls, sleepNS, nlock)...)
 	// second-order: call after an expired entry was touched, then another sleep
 	if thorough {
-		for _, su := range setups("a")[1:8] {
-			for _, c1 := range allCalls("a") {
-				for _, c2 := range []string{"app a " + strAtoms[1], "hset a g i3", "incr a 1", "cas a " + strAtoms[1] + " " + strAtoms[0] + " 0", "exp a 0"} {
-					out = append(out, strings.Join(strings.Fields("mem "+su+sl+" "+c1+sl+" "+c2+probes), " "))
+		x, y := strAtoms[0], strAtoms[1]
+		for _, su := range ttlSetups("a", x, ttls, false)[1:9] {
+			for _, c1 := range secondOps("a", x, y, ttls[1:2], false) {
+				for _, c2 := range []string{"app a " + y, "hset a g i3", "incr a 1", "cas a " + y + " " + y + " 0", "cas a " + x + " " + x + " " + ttls[2], "exp a 0"} {
+					out = append(out, strings.Join(strings.Fields("mem "+su+sl+" "+c1+sl+" "+c2+" ttl a get a"+sl+" get a ex a getl a hall a"), " "))
 				}
 			}
 		}
@@ -156,17 +171,23 @@ func genMem(r *vc.Rand, thorough bool) []string {
 		n = 30000
 	}
 	for i := 0; i < n; i++ {
+		g := newGenState()
 		nk := 1 + r.Intn(3)
-		length := 3 + r.Intn(22)
+		length := 3 + r.Intn(18)
 		var b []string
 		sleeps := 0
 		for j := 0; j < length; j++ {
-			if sleeps < 3 && r.Intn(9) == 0 {
+			if sleeps < 3 && r.Intn(10) == 0 {
 				b = append(b, "sl "+strconv.Itoa(sleepNS))
 				sleeps++
 				continue
 			}
-			b = append(b, memCall(r, memKeys[r.Intn(nk)]))
+			k := memKeys[r.Intn(nk)]
+			c, wrote := memCall(r, g, k)
+			b = append(b, c)
+			if wrote {
+				b = append(b, afterWrite(r, k, sleepNS, &sleeps, 3)...)
+			}
 		}
 		out = append(out, "mem "+strings.Join(b, " "))
 	}
@@ -177,12 +198,27 @@ func genMem(r *vc.Rand, thorough bool) []string {
 // kv keys a,b: JSON/ID strings with Set/Get/Delete/Exists/SetNX/CompareAndSwap/SetExpiration/GetExpiration;
 // list key l: string members via AppendToList/RemoveFromList/GetList/SetList; hash key h: string values;
 // counter key c: Incr/IncrBy. Lifetimes 0, 2 s, 1 h (whole seconds); `sl` = FastForward 3 s.
-func redCall(r *vc.Rand) string {
-	a := vc.Pick(r, strAtoms)
-	ttl := vc.Pick(r, []string{"0", "0", strconv.Itoa(rShortNS), strconv.Itoa(rShortNS), strconv.Itoa(longNS)})
+func pickStrAtom(r *vc.Rand) string { return vc.Pick(r, strAtoms) }
+
+func redCall(r *vc.Rand, g *genState) (string, string, bool) {
 	k := vc.Pick(r, []string{"a", "b"})
+	a := vc.Pick(r, strAtoms[:2])
+	if r.Intn(5) == 0 {
+		a = vc.Pick(r, strAtoms)
+	}
+	ttl := g.ttl(r, k, []string{"0", strconv.Itoa(rShortNS), strconv.Itoa(longNS)}, nil)
+	c := redCall1(r, g, k, a, ttl)
+	switch strings.Fields(c)[0] {
+	case "set", "nx", "cas", "exp":
+		return c, k, true
+	}
+	return c, k, false
+}
+
+func redCall1(r *vc.Rand, g *genState, k, a, ttl string) string {
 	switch r.Intn(24) {
 	case 0, 1, 2:
+		g.wrote(k, a, ttl)
 		return fmt.Sprintf("set %s %s %s", k, a, ttl)
 	case 3, 4, 5:
 		return "get " + k
@@ -191,14 +227,24 @@ func redCall(r *vc.Rand) string {
 	case 7:
 		return "ex " + k
 	case 8, 9:
+		if g.lastVal[k] == "" {
+			g.wrote(k, a, ttl)
+		}
 		return fmt.Sprintf("nx %s %s %s", k, a, ttl)
 	case 10, 11:
-		old := vc.Pick(r, strAtoms)
-		if r.Intn(4) == 0 {
-			old = "nil"
+		old, nw := g.casArgs(r, k, pickStrAtom)
+		if old != "nil" && old[0] != 's' {
+			old = a
 		}
-		return fmt.Sprintf("cas %s %s %s %s", k, old, a, ttl)
+		if nw[0] != 's' {
+			nw = a
+		}
+		if old == g.lastVal[k] || old == "nil" {
+			g.wrote(k, nw, ttl)
+		}
+		return fmt.Sprintf("cas %s %s %s %s", k, old, nw, ttl)
 	case 12:
+		g.lastTTL[k] = ttl
 		return fmt.Sprintf("exp %s %s", k, ttl)
 	case 13:
 		return "ttl " + k
@@ -225,34 +271,35 @@ func redCall(r *vc.Rand) string {
 
 func genRed(r *vc.Rand, thorough bool) []string {
 	var out []string
-	sl := " sl " + strconv.Itoa(rSleepNS)
-	x, y := strAtoms[0], strAtoms[1]
-	s, l := strconv.Itoa(rShortNS), strconv.Itoa(longNS)
-	// matrix on a kv key
-	kvSetups := []string{"", "set a " + x + " 0", "set a " + x + " " + s, "set a " + x + " " + l, "nx a " + x + " " + s, "cas a nil " + x + " " + s}
-	kvCalls := []string{"set a " + y + " 0", "set a " + y + " " + s, "get a", "del a", "ex a", "nx a " + y + " 0", "nx a " + y + " " + s,
-		"cas a " + x + " " + y + " 0", "cas a " + x + " " + y + " " + s, "cas a " + x + " " + y + " " + l, "cas a nil " + y + " 0", "cas a " + y + " " + x + " 0",
-		"exp a 0", "exp a " + s, "exp a " + l, "ttl a"}
-	for _, su := range kvSetups {
-		for _, slp := range []string{"", sl} {
-			for _, c := range kvCalls {
-				out = append(out, strings.Join(strings.Fields("red "+su+slp+" "+c+" get a ttl a ex a"+sl+" get a"), " "))
-			}
-		}
+	ttls := []string{"0", strconv.Itoa(rShortNS), strconv.Itoa(longNS)}
+	// exhaustive small scope on a kv key, all ttl combinations
+	out = append(out, triples("red", "a", ttls, rSleepNS, true)...)
+	// storage_based_lock.go call shapes on the Redis backend
+	nlock := 100
+	if thorough {
+		nlock = 2000
 	}
+	out = append(out, lockScenarios(r, "red", ttls, rSleepNS, nlock)...)
 	n := 600
 	if thorough {
 		n = 12000
 	}
 	for i := 0; i < n; i++ {
-		length := 3 + r.Intn(20)
+		g := newGenState()
+		length := 3 + r.Intn(18)
 		var b []string
+		sleeps := 0
 		for j := 0; j < length; j++ {
-			if r.Intn(8) == 0 {
+			if r.Intn(9) == 0 {
 				b = append(b, "sl "+strconv.Itoa(rSleepNS))
 				continue
 			}
-			b = append(b, redCall(r))
+			c, k, wrote := redCall(r, g)
+			b = append(b, c)
+			if wrote {
+				sleeps = 0
+				b = append(b, afterWrite(r, k, rSleepNS, &sleeps, 1)...)
+			}
 		}
 		out = append(out, "red "+strings.Join(b, " "))
 	}
